@@ -403,3 +403,376 @@ Proof.
   all: try assumption.
   all: solve [leaf_ok].
 Qed.
+
+(** ** One opcode (thread.executeOpcode) *)
+Lemma good_ext c s s1 o : ds s1 = ds s -> als s1 = als s -> good c s1 o -> good c s o.
+Proof. intros Ed Ea. destruct o; cbn [good]; try tauto. rewrite Ed, Ea. tauto. Qed.
+
+Theorem execute_opcode_good so c p idx s :
+  sigops_sized so -> sized c s -> depth s <= max_stack c -> good c s (execute_opcode so c p idx s).
+Proof.
+  intros Hso Hsz Hdep. unfold execute_opcode.
+  destruct (Z.ltb_spec (max_elem c) (lenZ (p_data p))) as [|Hp]; [exact I|].
+  destruct (is_disabled (p_val p) && _); [exact I|].
+  destruct (always_illegal (p_val p) && _); [exact I|].
+  set (s1 := if (OP_16 <? p_val p)%N then set_nops s (nops s + 1) else s).
+  assert (Ed : ds s1 = ds s) by (subst s1; destruct (OP_16 <? p_val p)%N; reflexivity).
+  assert (Ea : als s1 = als s) by (subst s1; destruct (OP_16 <? p_val p)%N; reflexivity).
+  assert (Hsz1 : sized c s1) by (unfold sized; rewrite Ed, Ea; exact Hsz).
+  assert (Hdep1 : depth s1 <= max_stack c) by (unfold depth; rewrite Ed, Ea; exact Hdep).
+  destruct ((OP_16 <? p_val p)%N && _); [exact I|].
+  destruct (negb (branch_executing s1) && _); [exact Hsz1|].
+  destruct (has_flag c F_MINIMALDATA && _ && _ && _ && _); [exact I|].
+  destruct (negb (should_exec c s (p_val p)) && _); [exact Hsz1|].
+  apply (good_ext c s s1); [exact Ed|exact Ea|]. apply handler_good; assumption.
+Qed.
+
+(** (1) in the form asked for.  The depth hypothesis is needed for OP_DEPTH only (its result is the
+    depth, and a number is pushed in as many bytes as it takes). *)
+Theorem execute_opcode_sized so c p idx s s' :
+  sigops_sized so -> sized c s -> depth s <= max_stack c ->
+  execute_opcode so c p idx s = OOk s' \/ execute_opcode so c p idx s = OReturn s' ->
+  sized c s'.
+Proof.
+  intros Hso Hsz Hdep H. pose proof (execute_opcode_good so c p idx s Hso Hsz Hdep) as G.
+  destruct H as [H|H]; rewrite H in G; cbn [good] in G; tauto.
+Qed.
+
+(** an early return (post-genesis top-level OP_RETURN) leaves both stacks as they were *)
+Theorem execute_opcode_return_stacks so c p idx s s' :
+  sigops_sized so -> sized c s -> depth s <= max_stack c ->
+  execute_opcode so c p idx s = OReturn s' -> ds s' = ds s /\ als s' = als s.
+Proof.
+  intros Hso Hsz Hdep H. pose proof (execute_opcode_good so c p idx s Hso Hsz Hdep) as G.
+  rewrite H in G. cbn [good] in G. tauto.
+Qed.
+
+(** ** A whole script *)
+Definition within (c : ctx) (s : st) : Prop := sized c s /\ depth s <= max_stack c.
+
+(** what a debugger sees after a step: both stacks, bottom first *)
+Definition snap_ok (c : ctx) (sn : snapshot) : Prop :=
+  all_le (max_elem c) (sn_ds sn) /\ all_le (max_elem c) (sn_as sn) /\
+  lenZ (sn_ds sn) + lenZ (sn_as sn) <= max_stack c.
+
+Lemma lenZ_rev {A} (l : list A) : lenZ (rev l) = lenZ l.
+Proof. unfold lenZ. rewrite rev_length. reflexivity. Qed.
+
+Lemma snap_ok_snap c s : within c s -> snap_ok c (snap s).
+Proof.
+  intros [[Hd Ha] Hdep]. unfold snap_ok, snap. cbn [sn_ds sn_as]. rewrite !lenZ_rev.
+  split; [apply all_le_rev, Hd|]. split; [apply all_le_rev, Ha|exact Hdep].
+Qed.
+Lemma snap_ok_within c s : snap_ok c (snap s) -> within c s.
+Proof.
+  unfold snap_ok, snap. cbn [sn_ds sn_as]. rewrite !lenZ_rev. intros (Hd & Ha & Hdep).
+  split; [split|exact Hdep]; rewrite <- (rev_involutive (_ s)); apply all_le_rev; assumption.
+Qed.
+
+Lemma within_ext c s s' : ds s' = ds s -> als s' = als s -> within c s -> within c s'.
+Proof. intros Ed Ea. unfold within, sized, depth. rewrite Ed, Ea. tauto. Qed.
+Lemma within_clear_als c s : within c s -> within c (set_als s []).
+Proof.
+  intros [[Hd Ha] Hdep]. unfold within, sized, depth in *. cbn [ds als set_als].
+  split; [split; [exact Hd|apply all_le_nil]|]. pose proof (lenZ_nonneg (als s)). rewrite lenZ_nil. lia.
+Qed.
+
+(** (2) every snapshot [run_ops] adds comes from a state within both limits, and so does the state
+    in which the script ends (normally or by an early return) *)
+Theorem run_ops_limits so c : sigops_sized so ->
+  forall ops idx s acc, within c s ->
+  exists new, snd (run_ops so c ops idx s acc) = new ++ acc /\ Forall (snap_ok c) new /\
+    match fst (run_ops so c ops idx s acc) with
+    | SEnd s' | SReturn s' => within c s'
+    | SErr | SPanic => True
+    end.
+Proof.
+  intros Hso. induction ops as [|p rest IH]; intros idx s acc Hw; cbn [run_ops].
+  - exists []. cbn [fst snd app]. auto.
+  - destruct Hw as [Hsz Hdep].
+    pose proof (execute_opcode_good so c p idx s Hso Hsz Hdep) as G.
+    destruct (execute_opcode so c p idx s) as [s'|s'| |]; cbn [good] in G.
+    + destruct (Z.ltb_spec (max_stack c) (lenZ (ds s') + lenZ (als s'))) as [|Hle].
+      { exists []. cbn [fst snd app]. auto. }
+      assert (Hw' : within c s') by (split; [exact G|exact Hle]).
+      destruct rest as [|q rest'].
+      { exists []. cbn [fst snd app]. auto. }
+      destruct (IH (S idx) s' (snap s' :: acc) Hw') as (new & E & Hn & Hf).
+      exists (new ++ [snap s']). rewrite <- app_assoc. cbn [app]. split; [exact E|]. split; [|exact Hf].
+      apply Forall_app. split; [exact Hn|]. constructor; [apply snap_ok_snap, Hw'|constructor].
+    + exists []. cbn [fst snd app]. split; [reflexivity|]. split; [constructor|].
+      destruct G as (G & Ed & Ea). eapply within_ext; [exact Ed|exact Ea|]. split; assumption.
+    + exists []. cbn [fst snd app]. auto.
+    + exists []. cbn [fst snd app]. auto.
+Qed.
+
+(** the same, as a statement about the whole snapshot list *)
+Corollary run_ops_limits_all so c ops idx s acc e acc' :
+  sigops_sized so -> within c s -> Forall (snap_ok c) acc ->
+  run_ops so c ops idx s acc = (e, acc') ->
+  Forall (snap_ok c) acc' /\ match e with SEnd s' | SReturn s' => within c s' | SErr | SPanic => True end.
+Proof.
+  intros Hso Hw Hacc E. destruct (run_ops_limits so c Hso ops idx s acc Hw) as (new & E1 & Hn & Hf).
+  rewrite E in E1, Hf. cbn [fst snd] in E1, Hf. subst acc'. split; [|exact Hf].
+  apply Forall_app. split; assumption.
+Qed.
+
+(** ** The whole engine *)
+Lemma finish_limits c d acc : Forall (snap_ok c) acc -> Forall (snap_ok c) (snd (finish c d acc)).
+Proof. intros H. unfold finish. cbn [snd]. apply Forall_rev, H. Qed.
+
+Lemma end_script_within c s s' : end_script s = Some s' -> within c s -> within c s' /\ als s' = [].
+Proof.
+  unfold end_script. destruct (cond s); [|discriminate]. intros [= <-] H.
+  split; [apply within_clear_als, H|reflexivity].
+Qed.
+
+Lemma run_redeem_limits so c saved s acc :
+  sigops_sized so -> within c s -> als s = [] ->
+  all_le (max_elem c) saved -> lenZ saved <= max_stack c -> Forall (snap_ok c) acc ->
+  Forall (snap_ok c) (snd (run_redeem so c saved s acc)).
+Proof.
+  intros Hso Hw Hals Hsv Hlen Hacc. unfold run_redeem.
+  destruct (negb _); [cbn [snd]; apply Forall_rev, Hacc|].
+  destruct saved as [|script below]; [cbn [snd]; apply Forall_rev, Hacc|].
+  destruct (parse_script (c_err_on_checksig c) script) as [ops|]; [|cbn [snd]; apply Forall_rev, Hacc].
+  set (s' := set_ds (shift_script s ops) below).
+  assert (Hw' : within c s').
+  { apply all_le_cons_iff in Hsv. destruct Hsv as [_ Hb]. rewrite lenZ_cons in Hlen.
+    unfold within, sized, depth. subst s'. cbn [ds als set_ds shift_script]. rewrite Hals, lenZ_nil.
+    split; [split; [exact Hb|apply all_le_nil]|lia]. }
+  assert (Hacc' : Forall (snap_ok c) (snap s' :: acc)) by (constructor; [apply snap_ok_snap, Hw'|exact Hacc]).
+  destruct ops as [|p rest]; [apply finish_limits, Hacc'|].
+  destruct (run_ops so c (p :: rest) 0 s' (snap s' :: acc)) as [e acc'] eqn:E.
+  destruct (run_ops_limits_all so c _ _ _ _ _ _ Hso Hw' Hacc' E) as [Ha' He].
+  destruct e as [s2|s2| |]; cbv iota beta.
+  - destruct (end_script s2) as [s3|] eqn:Ee; [|cbn [snd]; apply Forall_rev, Ha'].
+    apply finish_limits. constructor; [|exact Ha'].
+    destruct (end_script_within c s2 s3 Ee He) as [H3 _].
+    apply snap_ok_snap. eapply within_ext; [| |exact H3]; reflexivity.
+  - apply finish_limits. constructor; [|exact Ha'].
+    apply snap_ok_snap. eapply within_ext; [| |apply within_clear_als, He]; reflexivity.
+  - cbn [snd]. apply Forall_rev, Ha'.
+  - cbn [snd]. apply Forall_rev, Ha'.
+Qed.
+
+Lemma run_lock_limits so c bip16 saved lock s acc :
+  sigops_sized so -> within c s ->
+  all_le (max_elem c) saved -> lenZ saved <= max_stack c -> Forall (snap_ok c) acc ->
+  Forall (snap_ok c) (snd (run_lock so c bip16 saved lock s acc)).
+Proof.
+  intros Hso Hw Hsv Hlen Hacc. unfold run_lock.
+  destruct (run_ops so c lock 0 s acc) as [e acc'] eqn:E.
+  destruct (run_ops_limits_all so c _ _ _ _ _ _ Hso Hw Hacc E) as [Ha' He].
+  destruct e as [s2|s2| |]; cbv iota beta.
+  - destruct (end_script s2) as [s3|] eqn:Ee; [|cbn [snd]; apply Forall_rev, Ha'].
+    destruct (end_script_within c s2 s3 Ee He) as [H3 Hals].
+    destruct (bip16 && negb (after_genesis c)).
+    + apply run_redeem_limits; assumption.
+    + apply finish_limits. constructor; [|exact Ha'].
+      apply snap_ok_snap. eapply within_ext; [| |exact H3]; reflexivity.
+  - apply finish_limits. constructor; [|exact Ha'].
+    apply snap_ok_snap. eapply within_ext; [| |apply within_clear_als, He]; reflexivity.
+  - cbn [snd]. apply Forall_rev, Ha'.
+  - cbn [snd]. apply Forall_rev, Ha'.
+Qed.
+
+Lemma within_init c script : within c (init_st script).
+Proof.
+  unfold within, sized, depth, init_st, lenZ. cbn [ds als length Z.of_nat Z.add].
+  split; [split; apply all_le_nil|]. unfold max_stack, max_int32. destruct (after_genesis c); lia.
+Qed.
+
+Theorem execute_limits so c bip16 unlock lock :
+  sigops_sized so -> Forall (snap_ok c) (snd (execute so c bip16 unlock lock)).
+Proof.
+  intros Hso. unfold execute.
+  assert (Hnil : all_le (max_elem c) [] /\ lenZ (@nil bytes) <= max_stack c).
+  { split; [apply all_le_nil|]. pose proof (within_init c []) as [_ H]. exact H. }
+  destruct unlock as [|u urest].
+  - destruct lock as [|l lrest]; [constructor|].
+    apply run_lock_limits; try tauto; [apply within_init|constructor].
+  - destruct (run_ops so c (u :: urest) 0 (init_st (u :: urest)) []) as [e acc] eqn:E.
+    destruct (run_ops_limits_all so c _ _ _ _ _ _ Hso (within_init c _) (Forall_nil _) E) as [Ha He].
+    destruct e as [s1|s1| |]; cbv iota beta.
+    + destruct (end_script s1) as [s2|] eqn:Ee; [|cbn [snd]; apply Forall_rev, Ha].
+      destruct (end_script_within c s1 s2 Ee He) as [H2 Hals]. cbv zeta.
+      assert (H3 : within c (shift_script s2 lock)) by (eapply within_ext; [| |exact H2]; reflexivity).
+      assert (Hacc : Forall (snap_ok c) (snap (shift_script s2 lock) :: acc))
+        by (constructor; [apply snap_ok_snap, H3|exact Ha]).
+      destruct lock as [|l lrest]; [apply finish_limits, Hacc|].
+      apply run_lock_limits; try assumption.
+      * destruct H3 as [[Hd _] _]. exact Hd.
+      * destruct H3 as [_ Hdep]. unfold depth in Hdep.
+        pose proof (lenZ_nonneg (als (shift_script s2 (l :: lrest)))). lia.
+    + cbv zeta.
+      assert (H2 : within c (shift_script (set_als s1 []) lock))
+        by (eapply within_ext; [| |apply within_clear_als, He]; reflexivity).
+      assert (Hacc : Forall (snap_ok c) (snap (shift_script (set_als s1 []) lock) :: acc))
+        by (constructor; [apply snap_ok_snap, H2|exact Ha]).
+      destruct lock as [|l lrest]; [apply finish_limits, Hacc|].
+      apply run_lock_limits; try tauto.
+    + cbn [snd]. apply Forall_rev, Ha.
+    + cbn [snd]. apply Forall_rev, Ha.
+Qed.
+
+(** the context Engine.Execute builds from its arguments *)
+Definition engine_ctx (i : exec_input) : ctx :=
+  mkCtx (normalise_flags (ei_flags i)) (ei_has_tx i) (ei_tx_lock i) (ei_tx_version i) (ei_in_seq i)
+        (negb (ei_has_tx i) || negb (ei_has_prevout i)).
+
+(** (3) every state a debugger is shown during a whole run is within both limits *)
+Theorem engine_execute_limits so i :
+  sigops_sized so -> Forall (snap_ok (engine_ctx i)) (snd (engine_execute so i)).
+Proof.
+  intros Hso. unfold engine_execute. fold (engine_ctx i). set (c := engine_ctx i).
+  assert (Hbody : forall ub lb,
+    Forall (snap_ok c) (snd (
+      if has_flag c F_CLEANSTACK && negb (has_flag c F_BIP16) then (VErr, [])
+      else if (max_script_size c <? lenZ ub) || (max_script_size c <? lenZ lb) then (VErr, [])
+      else match parse_script (c_err_on_checksig c) ub with
+           | None => (VErr, [])
+           | Some u =>
+               match parse_script (c_err_on_checksig c) lb with
+               | None => (VErr, [])
+               | Some l =>
+                   if has_flag c F_SIGPUSHONLY && negb (is_push_only u) then (VErr, [])
+                   else
+                     let p2sh := has_flag c F_BIP16 && negb (after_genesis c) && is_p2sh lb in
+                     if p2sh && negb (is_push_only u) then (VErr, [])
+                     else execute so c p2sh u l
+               end
+           end))).
+  { intros ub lb.
+    destruct (has_flag c F_CLEANSTACK && negb (has_flag c F_BIP16)); [constructor|].
+    destruct ((max_script_size c <? lenZ ub) || (max_script_size c <? lenZ lb)); [constructor|].
+    destruct (parse_script (c_err_on_checksig c) ub) as [u|]; [|constructor].
+    destruct (parse_script (c_err_on_checksig c) lb) as [l|]; [|constructor].
+    destruct (has_flag c F_SIGPUSHONLY && negb (is_push_only u)); [constructor|].
+    cbv zeta. destruct (_ && negb (is_push_only u)); [constructor|].
+    apply execute_limits, Hso. }
+  destruct (ei_unlock i) as [|ub ur]; destruct (ei_lock i) as [|lb lr]; try apply Hbody. constructor.
+Qed.
+
+(** ** The real signature opcodes (model/CheckSig.v) keep the invariant: they pop and push booleans.
+    No hypothesis on the oracle or the transaction is needed (a panic outcome is not a state). *)
+From GoBT Require Import model.CheckSig.
+
+Lemma good_finish c s vf o : good c s o -> (forall s', o <> OReturn s') -> good c s (finish_verify vf o).
+Proof.
+  intros G Hr. unfold finish_verify. destruct vf; [|exact G].
+  destruct o as [s1|s1| |]; try exact I.
+  - apply good_verify. exact G.
+  - exfalso. eapply Hr. reflexivity.
+Qed.
+Lemma good_finish_bool c s vf s1 b : sized c s1 -> good c s (finish_verify vf (push_bool s1 b)).
+Proof. intros H. apply good_finish; [apply good_push_bool, H|discriminate]. Qed.
+Lemma good_finish_err c s vf : good c s (finish_verify vf OErr).
+Proof. destruct vf; exact I. Qed.
+Lemma good_finish_panic c s vf : good c s (finish_verify vf OPanic).
+Proof. destruct vf; exact I. Qed.
+Lemma pop_n_le n k d a b : all_le n d -> pop_n k d = Some (a, b) -> all_le n b.
+Proof. unfold pop_n. intros H. destruct (_ <? _); [discriminate|]. intros [= _ <-]. apply all_le_skipn, H. Qed.
+
+Ltac sig_walk :=
+  repeat first
+  [ progress cbv zeta
+  | progress cbn [option_map]
+  | match goal with
+    | |- good _ _ (match (match ?x with _ => _ end) with _ => _ end) => destruct x eqn:?
+    | |- good _ _ (match option_map _ (match ?x with _ => _ end) with _ => _ end) => destruct x eqn:?
+    end ].
+
+Ltac sig_chain :=
+  subst;
+  repeat match goal with
+  | E : ds ?s = _, H : all_le _ (ds ?s) |- _ => rewrite E in H
+  | H : all_le _ (_ :: _) |- _ => apply all_le_cons_iff in H; destruct H as [_ H]
+  | E : pop_n _ ?d = Some (_, _), H : all_le _ ?d |- _ => apply (pop_n_le _ _ _ _ _ H) in E
+  end.
+
+Ltac sig_leaf :=
+  first
+  [ exact I
+  | apply good_finish_err
+  | apply good_finish_panic
+  | unfold checksig_failed;
+    repeat match goal with |- good _ _ (finish_verify _ (if ?b then _ else _)) => destruct b end;
+    first [ apply good_finish_err
+          | apply good_finish_bool; sig_chain; unfold sized;
+            cbn [ds als set_ds set_nops]; split; assumption ] ].
+
+Lemma checksig_sized orc t i c s idx vf : sized c s ->
+  good c s (match checksig_run orc t i c s idx vf with Some o => o | None => OErr end).
+Proof. intros [Hd Ha]. unfold checksig_run. sig_walk. all: sig_leaf. Qed.
+
+Lemma checkmultisig_sized orc t i c s idx vf : sized c s ->
+  good c s (match checkmultisig_run orc t i c s idx vf with Some o => o | None => OErr end).
+Proof. intros [Hd Ha]. unfold checkmultisig_run. sig_walk. all: sig_leaf. Qed.
+
+Theorem mk_sigops_sized orc t i : sigops_sized (mk_sigops orc t i).
+Proof.
+  intros c s idx vf Hsz. cbn [mk_sigops so_checksig so_checkmultisig].
+  split; [apply checksig_sized|apply checkmultisig_sized]; exact Hsz.
+Qed.
+
+(** hence, for a run with a transaction context: *)
+Corollary engine_execute_limits_mk orc t n i :
+  Forall (snap_ok (engine_ctx i)) (snd (engine_execute (mk_sigops orc t n) i)).
+Proof. apply engine_execute_limits, mk_sigops_sized. Qed.
+Corollary engine_execute_limits_nosig i :
+  Forall (snap_ok (engine_ctx i)) (snd (engine_execute no_sigops i)).
+Proof. apply engine_execute_limits, no_sigops_sized. Qed.
+
+(** ** Examples (computed): the statements are not vacuous, and the limits are the ones that bite *)
+Definition snap_okb (c : ctx) (sn : snapshot) : bool :=
+  forallb (fun b => lenZ b <=? max_elem c) (sn_ds sn) && forallb (fun b => lenZ b <=? max_elem c) (sn_as sn) &&
+  (lenZ (sn_ds sn) + lenZ (sn_as sn) <=? max_stack c).
+Definition shape (r : verdict * list snapshot) : verdict * list (list nat * list nat) :=
+  (fst r, map (fun sn => (map (@length byte) (sn_ds sn), map (@length byte) (sn_as sn))) (snd r)).
+
+(** OP_1 OP_2 OP_TOALTSTACK OP_FROMALTSTACK | OP_ADD OP_3 OP_EQUAL: seven snapshots, all within limits *)
+Definition ex_small : exec_input := mkExecInput [x51; x52; x6b; x6c] [x93; x53; x87] 0 false false 0 0 0.
+Example ex_small_run :
+  engine_execute no_sigops ex_small =
+  (VOk, [mkSnap [[x01]] []; mkSnap [[x01]; [x02]] []; mkSnap [[x01]] [[x02]]; mkSnap [[x01]; [x02]] [];
+         mkSnap [[x03]] []; mkSnap [[x03]; [x03]] []; mkSnap [[x01]] []]).
+Proof. vm_compute. reflexivity. Qed.
+Example ex_small_ok : forallb (snap_okb (engine_ctx ex_small)) (snd (engine_execute no_sigops ex_small)) = true.
+Proof. vm_compute. reflexivity. Qed.
+
+(** two pushes of [n] bytes (OP_PUSHDATA2) | OP_CAT *)
+Definition push2 (n : nat) (lo hi : byte) : bytes := [x4d; lo; hi] ++ repeat_byte n x01.
+Definition ex_cat (n : nat) (lo hi : byte) (flags : N) : exec_input :=
+  mkExecInput (push2 n lo hi ++ push2 n lo hi) [x7e] flags false false 0 0 0.
+(** 300 + 300 bytes before Genesis: rejected at OP_CAT, after the two pushes were shown *)
+Example ex_cat_600_rejected : shape (engine_execute no_sigops (ex_cat 300 x2c x01 0)) = (VErr, [([300%nat], []); ([300%nat; 300%nat], [])]).
+Proof. vm_compute. reflexivity. Qed.
+(** 260 + 260 = 520 bytes: accepted *)
+Example ex_cat_520_accepted :
+  shape (engine_execute no_sigops (ex_cat 260 x04 x01 0)) = (VOk, [([260%nat], []); ([260%nat; 260%nat], []); ([520%nat], [])]).
+Proof. vm_compute. reflexivity. Qed.
+(** the same 600-byte concatenation after Genesis (flag bit 14): accepted, [max_elem] is 2^31-1 there *)
+Example ex_cat_600_genesis :
+  shape (engine_execute no_sigops (ex_cat 300 x2c x01 16384)) = (VOk, [([300%nat], []); ([300%nat; 300%nat], []); ([600%nat], [])]).
+Proof. vm_compute. reflexivity. Qed.
+(** a 521-byte push is refused by the test at the head of executeOpcode; 520 bytes pass *)
+Example ex_push_521 : engine_execute no_sigops (mkExecInput (push2 521 x09 x02) [x51] 0 false false 0 0 0) = (VErr, []).
+Proof. vm_compute. reflexivity. Qed.
+Example ex_push_520 : fst (engine_execute no_sigops (mkExecInput (push2 520 x08 x02) [x51] 0 false false 0 0 0)) = VOk.
+Proof. vm_compute. reflexivity. Qed.
+(** the depth limit: 1000 items are fine, the 1001st ends the run (1000 snapshots were shown, all within limits) *)
+Definition ex_deep (n : nat) : exec_input := mkExecInput (repeat_byte n x51) [x61] 0 false false 0 0 0.
+Example ex_deep_1000 :
+  let r := engine_execute no_sigops (ex_deep 1000) in
+  fst r = VOk /\ length (snd r) = 1001%nat /\ forallb (snap_okb (engine_ctx (ex_deep 1000))) (snd r) = true.
+Proof. vm_compute. auto. Qed.
+Example ex_deep_1001 :
+  let r := engine_execute no_sigops (ex_deep 1001) in
+  fst r = VErr /\ length (snd r) = 1000%nat /\ forallb (snap_okb (engine_ctx (ex_deep 1001))) (snd r) = true.
+Proof. vm_compute. auto. Qed.
+
+Print Assumptions execute_opcode_sized.
+Print Assumptions run_ops_limits.
+Print Assumptions engine_execute_limits.
+Print Assumptions mk_sigops_sized.
